@@ -44,7 +44,7 @@ def run(rep):
                 "provider asks textX whether its dependencies are resolved: every structure over <= 3 references, "
                 "4 references in one layout), loaded with real "
                 "textX, one metamodel per worker process reused for all loads (earlier models dropped); I->S: the provider calls of those "
-                "loads plus seeded-random scenarios (<= 3 files, <= 9 references) validated by TLC. Non-trivial: at "
+                "loads (quick: of every second enumerated scenario) plus seeded-random scenarios (<= 3 files, <= 9 references) validated by TLC. Non-trivial: at "
                 "least one dependency or never-resolving reference; distinct by scenario content.")
     rep.assumptions = [
         "attribute contents are compared exactly (as sequences): 'the result does not depend on which order is "
@@ -83,7 +83,8 @@ def run(rep):
     # c09quick = c09small + c09four + mixed + c09grp + c09dup; c09thorough adds c09never, c09grpfour (MC_LoaderResolve.tla)
     families = ["c09quick"] if quick else ["c09thorough"]
     stats = R.conformance(rep, families, "seq", devs, _nontrivial, 300 if quick else 4000, rng,
-                          dict(max_files=3, max_refs=9, max_sched=2, p_dep=0.3, p_never=0.1, p_unknown=0.03))
+                          dict(max_files=3, max_refs=9, max_sched=2, p_dep=0.3, p_never=0.1, p_unknown=0.03),
+                          trace_every=2 if quick else 1)
     rep.exhaustive = True
     rep.bounds.update(stats)
 
